@@ -32,6 +32,35 @@ pub struct PtCase {
     /// consist (0 `drain_loco_vec`, 1 `set_loco_vec`, 2 the public field)
     #[serde(default)]
     pub drop_unit_before: Option<(usize, u8)>,
+    /// mixed consists only: the consist is first created (`Consist::new`) from its
+    /// fuel-burning units alone and then given the complete list (1 through the public field,
+    /// 2 through `set_loco_vec`) — anything cached at construction is stale afterwards
+    #[serde(default)]
+    pub fuel_units_first: u8,
+}
+
+/// the consist of a case as the driver and the simulation-object differential both start from
+pub fn case_consist(case: &PtCase) -> anyhow::Result<Consist> {
+    let mut con: Consist = build_consist(&case.units, case.pdct, None)?;
+    if case.hybrids > 0 {
+        let mut v = con.loco_vec.clone();
+        for h in 0..case.hybrids {
+            v.push(hybrid_unit(case, h));
+        }
+        con = Consist::new(v, None, con.pdct.clone());
+    }
+    if case.fuel_units_first > 0 && case.units.iter().any(|u| u.is_bel()) && case.units.iter().any(|u| !u.is_bel()) {
+        let full = con.loco_vec.clone();
+        let fuel_only: Vec<Locomotive> = full.iter().zip(case.units.iter()).filter(|(_, u)| !u.is_bel()).map(|(l, _)| l.clone()).collect();
+        let mut c2 = Consist::new(fuel_only, None, con.pdct.clone());
+        if case.fuel_units_first == 1 {
+            c2.loco_vec = full;
+        } else {
+            c2.set_loco_vec(full);
+        }
+        con = c2;
+    }
+    Ok(con)
 }
 
 pub fn gen_pt_case(g: &mut Gen, tier: Tier, force_consist: Option<bool>) -> PtCase {
@@ -48,7 +77,7 @@ pub fn gen_pt_case_dt(g: &mut Gen, tier: Tier, force_consist: Option<bool>, coar
     let max_steps = if tier == Tier::Thorough { 80 } else { 40 };
     let dtm = if coarse_dt_p > 0.0 && g.bool(coarse_dt_p) { 10.0 } else { dt_max(&units) };
     let steps = gen_steps(g, max_steps, dtm, !consist);
-    PtCase { units, consist, pdct, steps, retry_on_same_object: false, hybrids: 0, limits_off: false, drop_unit_before: None }
+    PtCase { units, consist, pdct, steps, retry_on_same_object: false, hybrids: 0, limits_off: false, drop_unit_before: None, fuel_units_first: 0 }
 }
 
 pub type Vals = BTreeMap<String, f64>;
@@ -155,20 +184,13 @@ pub fn drive(case: &PtCase) -> PtTrace {
     // difference of two trace times, so that `PowerTrace::dt(i)` reproduces it bit for bit
     let mut t_prev = 0.0f64;
     if case.consist {
-        let mut con: Consist = match build_consist(&case.units, case.pdct, None) {
+        let mut con: Consist = match case_consist(case) {
             Ok(c) => c,
             Err(e) => {
                 tr.build_err = Some(format!("{e:#}"));
                 return tr;
             }
         };
-        if case.hybrids > 0 {
-            let mut v = con.loco_vec.clone();
-            for h in 0..case.hybrids {
-                v.push(hybrid_unit(case, h));
-            }
-            con = Consist::new(v, None, con.pdct.clone());
-        }
         if case.limits_off {
             con.set_assert_limits(false);
         }
@@ -265,6 +287,9 @@ pub fn drive(case: &PtCase) -> PtTrace {
             }
         };
         let edrv_rating = case.units[0].edrv().pwr_max;
+        if case.limits_off {
+            loco.assert_limits = false;
+        }
         for s in &case.steps {
             let t_new = t_prev + s.dt;
             let dt_used = t_new - t_prev;
@@ -284,14 +309,29 @@ pub fn drive(case: &PtCase) -> PtTrace {
                 con_post: Vals::new(),
             };
             let snapshot = loco.clone();
-            let r = (|| -> anyhow::Result<()> {
+            let mut attempt = || -> anyhow::Result<()> {
                 loco.set_pwr_aux(eo);
                 loco.set_cur_pwr_max_out(None, dt)?;
                 rec.pre = vec![unit_vals(&loco)];
                 rec.request = request_for(s, loco.state.pwr_out_max.value, loco.state.pwr_regen_max.value, edrv_rating);
+                if s.aux_off_after_publish {
+                    // the limits stay as published; the unit's own checks must still keep the
+                    // accepted step within them
+                    loco.set_pwr_aux(Some(false));
+                }
                 loco.solve_energy_consumption(uc::W * rec.request, dt, eo)?;
                 Ok(())
-            })();
+            };
+            // limit checking off: a demand the unit cannot meet may trip an internal assertion —
+            // not an accepted step (as for consists above)
+            let r = if case.limits_off {
+                match crate::engine::catch(&mut attempt) {
+                    Ok(r) => r,
+                    Err(p) => Err(anyhow::anyhow!("unwound with limit checking off: {}", p.msg.lines().map(|l| l.trim()).collect::<Vec<_>>().join(" "))),
+                }
+            } else {
+                attempt()
+            };
             match r {
                 Ok(()) => {
                     rec.accepted = true;
@@ -323,7 +363,7 @@ pub fn sim_differential(case: &PtCase, tr: &PtTrace, cx: &mut Ctx) {
     use altrios_core::consist::consist_sim::ConsistSimulation;
     use altrios_core::consist::locomotive::loco_sim::{LocomotiveSimulation, PowerTrace};
     let acc: Vec<&StepRec> = tr.steps.iter().filter(|s| s.accepted).collect();
-    if acc.is_empty() || (case.retry_on_same_object && tr.steps.iter().any(|s| !s.accepted)) {
+    if acc.is_empty() || (case.retry_on_same_object && tr.steps.iter().any(|s| !s.accepted)) || case.steps.iter().any(|s| s.aux_off_after_publish) || (case.limits_off && !case.consist) {
         return;
     }
     let mut time = vec![0.0f64];
@@ -336,14 +376,7 @@ pub fn sim_differential(case: &PtCase, tr: &PtTrace, cx: &mut Ctx) {
     let trace = PowerTrace::new(time, pwr, eo);
     let borderline = acc.iter().any(|s| s.kind != 4 && s.frac >= 0.999 && s.request != 0.0);
     let (res, units, con): (anyhow::Result<()>, Vec<Vals>, Vals) = if case.consist {
-        let Ok(mut c) = build_consist(&case.units, case.pdct, None) else { return };
-        if case.hybrids > 0 {
-            let mut v = c.loco_vec.clone();
-            for h in 0..case.hybrids {
-                v.push(hybrid_unit(case, h));
-            }
-            c = Consist::new(v, None, c.pdct.clone());
-        }
+        let Ok(c) = case_consist(case) else { return };
         let mut sim = ConsistSimulation::new(c, trace, None);
         let r = sim.walk();
         let mut cv = Vals::new();
@@ -400,6 +433,9 @@ fn common_labels(case: &PtCase, tr: &PtTrace, cx: &mut Ctx) -> (usize, bool, boo
     cx.label_if(case.consist && case.pdct == 0, "res_greedy");
     cx.label_if(case.consist && case.pdct == 1, "proportional");
     cx.label_if(case.hybrids > 0, "consist_with_hybrid_locomotive");
+    cx.label_if(case.fuel_units_first > 0 && n_bel > 0 && n_bel < case.units.len(), "consist_created_from_its_fuel_units_and_completed_afterwards");
+    cx.label_if(case.limits_off && !case.consist, "standalone_unit_with_limit_checking_off");
+    cx.label_if(tr.steps.iter().any(|s| s.accepted && case.steps.iter().any(|q| q.aux_off_after_publish)), "aux_switched_off_between_publication_and_demand");
     let traction = acc.iter().any(|s| s.request > 0.0);
     let braking = acc.iter().any(|s| s.request < 0.0);
     let regen = acc.iter().any(|s| s.post.iter().any(|u| has(u, "res.soc") && g(u, "edrv.pwr_mech_prop_out") < 0.0));
@@ -948,6 +984,24 @@ macro_rules! pt_prop {
                 }
                 if $id == "C10" && c.consist && g.bool(0.12) {
                     c.limits_off = true;
+                }
+                // consists first created from their fuel-burning units and completed afterwards
+                // (C10: the battery-first rule must look at the units that are there now; C01:
+                // consist totals)
+                if ($id == "C10" || $id == "C01") && c.consist && g.bool(0.15) {
+                    c.fuel_units_first = 1 + g.idx(2) as u8;
+                }
+                // "a switched-off engine burns nothing" and the second law do not depend on the
+                // limit assertions: 15 % of C08's stand-alone units run with them off
+                if $id == "C08" && !c.consist && g.bool(0.15) {
+                    c.limits_off = true;
+                }
+                // C09, stand-alone units: in 10 % of the histories one step in four has its
+                // aux load switched off between the publication of the limits and the demand
+                if $id == "C09" && !c.consist && g.bool(0.1) {
+                    for s in c.steps.iter_mut() {
+                        s.aux_off_after_publish = g.bool(0.25);
+                    }
                 }
                 c
             }
